@@ -447,7 +447,15 @@ func backoff(baseDelay, maxDelay time.Duration, retries int) time.Duration {
 	if backoff > max {
 		backoff = max
 	}
-	return time.Duration(backoff)
+	// float64 cannot represent every duration and a negative base shrinks when multiplied: clamp the result.
+	d := time.Duration(backoff)
+	if d < baseDelay {
+		d = baseDelay
+	}
+	if d > maxDelay {
+		d = maxDelay
+	}
+	return d
 }
 
 // createCloudSpannerInstanceIfMissing creates a one node "Instance" of Cloud Spanner in the specificed project if missing.
